@@ -2,8 +2,9 @@
 """Verify mutants delivered by sub-agents (in /tmp/seed/Cxx/deliver) in a scratch worktree and, if confirmed,
 store them under /verif/seeded/<id>/.  usage: verify_seeds.py C01 C02 ..."""
 import json, os, shutil, subprocess, sys, re
-WT = "/tmp/vs/wt"
-TGT = "/tmp/vs/target"
+VS = os.environ.get("VS_DIR", "/tmp/vs")
+WT = VS + "/wt"
+TGT = VS + "/target"
 VERIF = "/verif"
 ENV = dict(os.environ, CARGO_NET_OFFLINE="true", CARGO_TARGET_DIR=TGT, RUST_BACKTRACE="0")
 
@@ -15,7 +16,7 @@ def sh(cmd, cwd=WT, timeout=1200):
 
 def setup():
     if not os.path.exists(WT):
-        os.makedirs("/tmp/vs", exist_ok=True)
+        os.makedirs(VS, exist_ok=True)
         rc, out = sh("git -C /repo worktree add -q --detach %s HEAD && cp /repo/Cargo.lock %s/" % (WT, WT), cwd="/")
         assert rc == 0, out
 
